@@ -328,9 +328,13 @@ func (run *vc36Run) continueAndEnumerate(k int, memAtK *vc36MemDB, pp *vc36PairP
 		for _, name := range sp {
 			c.Count("pair_second_crash_inside_"+name, 1)
 		}
+		vc36CountBlockDataCrashPoint(run, "pair_second_", clog, j)
 		kind, off := "end", 0
 		if j < len(clog) {
 			kind = clog[j].kind
+			if cl := vc36WriteClass(clog[j]); cl != "" {
+				kind = cl
+			}
 		} else {
 			c.Count("pair_second_restart_after_complete_continuation", 1)
 		}
